@@ -15,8 +15,8 @@ RULE = ("pairs (s,t) of strings: exhaustive over small alphabets/lengths plus sa
         "distinct = distinct (s,t,drive mode)")
 ASSUMPTIONS = ["reference = textbook LCS DP (gv/oracle.py:lcs_len)",
                "a Match between unequal characters counts as one removed plus one inserted character"]
-MINIMUMS = {"quick": {"long_string_scripts_with_distance_over_255": 20, "scripts_judged": 60000, "string_edits": 50000, "renderings_judged": 2000},
-            "thorough": {"long_string_scripts_with_distance_over_255": 300, "scripts_judged": 500000, "string_edits": 400000}}
+MINIMUMS = {"quick": {"comparisons_reusing_a_source_node": 2000, "long_string_scripts_with_distance_over_255": 20, "scripts_judged": 60000, "string_edits": 50000, "renderings_judged": 2000},
+            "thorough": {"comparisons_reusing_a_source_node": 30000, "long_string_scripts_with_distance_over_255": 300, "scripts_judged": 500000, "string_edits": 400000}}
 
 
 def _strings(alphabet, maxlen):
@@ -43,6 +43,8 @@ def plan(tier, seed):
     for k in range(6 if tier == "quick" else 16):
         specs.append({"stratum": "long-strings-across-small-integer-widths", "n": 8 if tier == "quick" else 50, "k": k, "long": True,
                       "case_timeout": 120, "shrink": False})
+    for k in range(2 if tier == "quick" else 8):
+        specs.append({"stratum": "one-source-node-many-targets", "n": 500 if tier == "quick" else 8000, "k": k, "shared": True})
     for k in range(2 if tier == "quick" else 8):
         specs.append({"stratum": "rendered-marks", "n": 1500 if tier == "quick" else 20000, "k": k, "rendered": True})
     return specs
@@ -78,6 +80,17 @@ def gen_cases(spec, ctx):
                 s[i:i] = isl
                 t[j:j] = isl
             yield {"s": "".join(s), "t": "".join(t), "mode": r.randrange(3)}
+        return
+    if spec.get("shared"):
+        # history: one source node is compared with several targets one after the other, each target living only for its own
+        # comparison ("compare this base document with each of these"); targets of equal length follow each other so that a
+        # freed target's memory is the likeliest home of the next one
+        for _ in range(spec["n"]):
+            al = r.choice(["ab", "abc", "abcd"])
+            s = "".join(r.choice(al) for _ in range(r.randint(1, 10)))
+            ln = r.randint(0, 10)
+            ts = ["".join(r.choice(al) for _ in range(ln if r.random() < 0.7 else r.randint(0, 10))) for _ in range(r.randint(2, 5))]
+            yield {"s": s, "ts": ts, "mode": r.randrange(3), "shared": True}
         return
     if spec.get("rendered"):
         for _ in range(spec["n"]):
@@ -121,11 +134,11 @@ def gen_cases(spec, ctx):
             yield {"s": s, "t": t, "mode": mode}
 
 
-def script_of(s, t, mode, ctx=None):
+def script_of(s, t, mode, ctx=None, source=None):
     """Returns list of (kind, a_char, b_char) read from the real script."""
     import graphtage
     from graphtage import edits as ge
-    a, b = graphtage.StringNode(s), graphtage.StringNode(t)
+    a, b = (source if source is not None else graphtage.StringNode(s)), graphtage.StringNode(t)
     if mode == 2:
         d = a.diff(b)
         e = d.edit
@@ -191,7 +204,43 @@ def check_rendered(case, ctx):
     return []
 
 
+_GC = [0]
+
+
+def check_shared(case, ctx):
+    import gc
+    import graphtage
+    src = graphtage.StringNode(case["s"])
+    diags = []
+    for i, t in enumerate(case["ts"]):
+        sub = {"s": case["s"], "t": t, "mode": case["mode"]}
+        d = _judge(sub, ctx, source=src, seen=False)
+        _GC[0] += 1
+        if _GC[0] % 8 == 0:
+            gc.collect()
+        if ctx is not None:
+            ctx.count("comparisons_reusing_a_source_node")
+        if d:
+            for x in d:
+                x["step"] = i
+                x["targets_so_far"] = case["ts"][:i + 1]
+            diags.extend(d)
+            break
+    if ctx is not None:
+        ctx.seen(case, nontrivial=True)
+    return diags
+
+
 def check(case, ctx):
+    if case.get("shared"):
+        try:
+            return check_shared(case, ctx)
+        except Exception as ex:  # noqa
+            return [core.exc_diag("exception", ex)]
+    return _judge(case, ctx)
+
+
+def _judge(case, ctx, source=None, seen=True):
     if case["mode"] == 3:
         try:
             return check_rendered(case, ctx)
@@ -199,7 +248,7 @@ def check(case, ctx):
             return [core.exc_diag("exception", ex)]
     s, t, mode = case["s"], case["t"], case["mode"]
     try:
-        script, cost = script_of(s, t, mode, ctx)
+        script, cost = script_of(s, t, mode, ctx, source=source)
     except Exception as ex:  # noqa
         return [core.exc_diag("exception", ex)]
     diags = []
@@ -226,7 +275,8 @@ def check(case, ctx):
             ctx.count("lcs_shorter_than_both")
         if len(s) + len(t) - 2 * ref > 255:
             ctx.count("long_string_scripts_with_distance_over_255")
-        ctx.seen(case, nontrivial=(s != t and bool(s) and bool(t)))
+        if seen:
+            ctx.seen(case, nontrivial=(s != t and bool(s) and bool(t)))
     return diags
 
 
@@ -235,6 +285,11 @@ def classify(case, diag):
 
 
 def shrink_candidates(case):
+    if case.get("shared"):
+        for i in range(len(case["ts"])):
+            if len(case["ts"]) > 1:
+                yield dict(case, ts=case["ts"][:i] + case["ts"][i + 1:])
+        return
     s, t, mode = case["s"], case["t"], case["mode"]
     for i in range(len(s)):
         yield {"s": s[:i] + s[i + 1:], "t": t, "mode": mode}
